@@ -69,7 +69,7 @@ def floors(tier):
     return {'evaluations': 20000, 'distinct_nontrivial': 3000, 'splits_checked': 50000, 'keyval_checked': 8000,
             'histkeys:sep': 6, 'hist:policy:first': 500, 'hist:policy:concatenate': 500, 'hist:policy:error': 500,
             'hist:policy:last': 500, 'repeated_keys_seen': 1000, 'keyval_second_call_on_same_list': 5000,
-            'keyval_default_values_used': 5000, 'all_arguments_info_checked': 1000, 'content_as_chars_checked': 500, 'keyval_callable_policy_calls': 1000, 'hist:keyval_default:list': 2000,
+            'keyval_default_values_used': 5000, 'all_arguments_info_checked': 1000, 'split_at_node_on_lists_with_none': 500, 'content_as_chars_checked': 500, 'keyval_callable_policy_calls': 1000, 'hist:keyval_default:list': 2000,
             'lists_with_none_entries': 2000, 'argument_info_checked': 4000,
             'double_group_same_delimiters': 200, 'double_group_other_delimiters': 200}
 
@@ -188,15 +188,24 @@ def check_split(s, nl, sepname, keep_empty, max_split, skip_none, rec):
     return None
 
 
-def check_split_at_node(s, nl, max_split, keep_separators, rec):
+def check_split_at_node(s, nl, max_split, keep_separators, rec, skip_none=True):
     rec.monitor('splits_checked')
     rec.hist('sep', 'node-predicate')
-    pred = lambda n: n.isNodeType(N.LatexSpecialsNode) or n.isNodeType(N.LatexCommentNode)
+    pred = lambda n: n is not None and (n.isNodeType(N.LatexSpecialsNode) or n.isNodeType(N.LatexCommentNode))
     orig = live(nl)
     try:
-        parts = nl.split_at_node(pred, keep_separators=keep_separators, max_split=max_split)
+        parts = nl.split_at_node(pred, keep_separators=keep_separators, max_split=max_split, skip_none=skip_none)
     except Exception as e:
         return 'split_at_node raised %s: %s' % (type(e).__name__, e)
+    # skip_none only decides whether None placeholders are dropped: with skip_none=False every one of them is still there
+    n_none_in = sum(1 for n in nl if n is None)
+    n_none_out = sum(1 for p in parts for n in p if n is None)
+    if n_none_in:
+        rec.monitor('split_at_node_on_lists_with_none')
+    if skip_none and n_none_out:
+        return 'split_at_node(skip_none=True): %d None entries in the parts' % n_none_out
+    if not skip_none and n_none_out != n_none_in:
+        return 'split_at_node(skip_none=False): the list has %d None placeholders, the parts hold %d' % (n_none_in, n_none_out)
     flat = []
     for pi, p in enumerate(parts):
         ns = live(p)
@@ -535,7 +544,7 @@ def check_case(case, rec):
     if what == 'split':
         err = check_split(s, nl, case['sep'], case['keep_empty'], case['max_split'], case.get('skip_none', True), rec)
     elif what == 'split_node':
-        err = check_split_at_node(s, nl, case['max_split'], case['keep_separators'], rec)
+        err = check_split_at_node(s, nl, case['max_split'], case['keep_separators'], rec, case.get('skip_none', True))
     else:
         err = check_keyval(s, nl, case['policy'], case.get('extract', True), rec, case.get('default'),
                            case.get('second_policy'))
@@ -586,7 +595,10 @@ def run_shard(desc, rec):
             for ks in (False, True):
                 for ms in (None, 0, 1, 3):
                     rec.case()
-                    check_case({'s': s, 'what': 'split_node', 'max_split': ms, 'keep_separators': ks}, rec)
+                    case = {'s': s, 'what': 'split_node', 'max_split': ms, 'keep_separators': ks, 'skip_none': bool((i + (ms or 0)) % 2)}
+                    if none_at:
+                        case['none_at'] = none_at
+                    check_case(case, rec)
     elif desc['kind'] == 'arginfo':
         contents = ['a=1,b=2', '{a=1,b=2}', '{[}', '[x]', 'k', '', ' a = 1 ', '{a}{b}', '\\textbf{a,b}', '{{a,b}}', 'a,{b,c},d',
                     '{a=1},b={2}', '{a=1,b=2}c', '\\alpha', '{(a,b)}', 'x={y=z}']
